@@ -66,6 +66,14 @@ pub fn set_loss_pattern(modulus: u64, pattern: u64) {
   LOSS_HASHED.store(modulus != 0, Ordering::SeqCst);
 }
 
+static MUTED: std::sync::Mutex<Option<[u8; 12]>> = std::sync::Mutex::new(None);
+
+/// From now on every datagram this participant sends is dropped (None: nobody is muted): to its peers the
+/// participant goes silent without having said goodbye - a crash or a partition.
+pub fn mute_participant(guid: Option<crate::structure::guid::GUID>) {
+  *MUTED.lock().unwrap() = guid.map(|g| g.prefix.bytes);
+}
+
 pub fn loss_stats() -> (u64, u64) {
   (
     LOSS_CTR.load(Ordering::SeqCst),
@@ -95,6 +103,11 @@ pub fn intercept(buffer: &[u8], locator: &Locator) -> bool {
   });
   if captured {
     return true;
+  }
+  if let Some(p) = *MUTED.lock().unwrap() {
+    if buffer.len() >= 20 && &buffer[0..4] == b"RTPS" && buffer[8..20] == p {
+      return true;
+    }
   }
   let m = LOSS_MOD.load(Ordering::Relaxed);
   if m != 0 {
